@@ -319,6 +319,7 @@ def verify(t: Target, seed=0, prefixes=None, budget=None, budget_s=None):
     eng.loop_specs = dict(t.loops)
     globs = vars(mod)
     target_func = Func(node, None, globs, name=t.qualname)
+    eng.target_func = target_func
     worklist = [list(x) for x in (prefixes if prefixes is not None else [[]])]
     npaths = 0
     res['leftover'] = []
@@ -694,6 +695,16 @@ def replay(t: Target, ob, model, mod):
         nenv = dict(conc)
         nenv.update(out[2] if len(out) > 2 and out[2] else {})
         nenv['old'] = conc
+        if getattr(t, 'replay_state_only', False) and cl is not None:
+            # the clause speaks about state only (same on every exit): evaluate it on whatever exit the native scenario took
+            try:
+                ok = native_clause(cl.fn, nenv)
+            except Exception as ex:
+                w['reason'] = f'clause not evaluable natively: {type(ex).__name__}: {ex}'
+                return w
+            w['replayed'] = not ok
+            w['reason'] = 'clause false on the real function (scenario battery)' if not ok else 'clause holds on every native scenario tried'
+            return w
         if out[0] == 'raise':
             e = out[1]
             entry = match_raises(t, type(e))
